@@ -98,13 +98,17 @@ impl<T> ChannelSlots<T> {
 
         // At the end of our rope for simple channel allocation; fall back to finding
         // one that has been previously freed.
-        let channel_id = self.freed_channel_ids.pop().context(ExhaustedChannelIdsSnafu)?;
-        match self.slots.entry(channel_id) {
-            Entry::Occupied(_) => unreachable!("free channel id cannot be occupied"),
-            Entry::Vacant(entry) => {
-                let (t, u) = make_entry(channel_id)?;
-                entry.insert(t);
-                Ok(u)
+        loop {
+            let channel_id = self.freed_channel_ids.pop().context(ExhaustedChannelIdsSnafu)?;
+            match self.slots.entry(channel_id) {
+                // a freed id may have been reopened since (explicitly, or because the
+                // counter above reached it); skip it and try the next one
+                Entry::Occupied(_) => continue,
+                Entry::Vacant(entry) => {
+                    let (t, u) = make_entry(channel_id)?;
+                    entry.insert(t);
+                    return Ok(u);
+                }
             }
         }
     }
